@@ -80,6 +80,9 @@ def plan_core(pid, profile, level_text, extra_jobs=None, required=WINDOW_PATHS, 
             if tier != "quick":
                 js.append({"name": pid + ".free.memcheck.tp", "flavour": "memcheck", "args": ["core", "profile=" + profile, "mode=free", "secs=40", "alloc=real",
                            "val=tp", "threads=4", "ops_lo=100", "ops_hi=300", "stall_s=120"], "shards": 8, "threads": 4, "timeout": 900})
+        if memcheck and tier != "quick":
+            # many threads on the fallback-only strategy: helpers' rejected replacements die inside writers' walks
+            js.append(core_free(pid + ".free.fill14", profile, 60, alloc="quarantine", shards=1, threads=14, extra=["strat=fill"]))
         if extra_jobs:
             js += extra_jobs(tier, seed)
         return js
@@ -244,7 +247,8 @@ def plan_c11():
         return e
     return {
         "level": "exploration",
-        "jobs": lambda tier, seed: life_jobs("C11", tier) + [life_job("C11.life.free.tsan", "free", secs=T(tier, 4, 60), flavour="tsan", alloc="real", shards=2)],
+        "jobs": lambda tier, seed: life_jobs("C11", tier) + [life_job("C11.life.free.tsan", "free", secs=T(tier, 4, 60), flavour="tsan", alloc="real", shards=2)]
+        + [dict(life_job("C11.life.token.wide", "token", execs=T(tier, 150, 10000)), args=["life", "profile=c10", "mode=token", "alloc=quarantine", "val=tp", "execs=%d" % T(tier, 150, 10000), "wide=1"], threads=8, shards=2)],
         "rule": LIFE_RULE,
         "evidence": ev,
         "required": core_required(["node.reused", "node.new", "life.tls_gone_ops", "life.threads_created", "life.ownership_intervals", "write.helped_reader"]),
